@@ -153,6 +153,10 @@ func init() {
 			"inputs longer than the stated bounds; node trees deeper than one injected level",
 			"YAML nodes violating yaml.v3's own invariants (odd mapping arity, children under scalars)",
 		}}
+		for L := 1; L <= 4; L++ {
+			p.Quick = append(p.Quick, HRun{Entry: "HarnessC01ExprOpen", Args: []int64{int64(L)}, Bound: "lexer+parser on all 256^L byte strings of length L with nothing after them (a placeholder that is never closed, an `if:` condition without ${{ }}): the input ends inside any token", Require: []string{"reject"}})
+			p.Thorough = append(p.Thorough, HRun{Entry: "HarnessC01ExprOpen", Args: []int64{int64(L)}, Bound: "lexer+parser on all byte strings of length L with nothing after them", Require: []string{"reject"}})
+		}
 		for L := 0; L <= 3; L++ {
 			p.Quick = append(p.Quick, HRun{Entry: "HarnessC01Expr", Args: []int64{int64(L), 1}, Bound: "lexer+parser+semantic checker on all 256^L byte strings of length L followed by }}"})
 			p.Quick = append(p.Quick, HRun{Entry: "HarnessC17Smoke", Args: []int64{int64(L), 1}, Bound: "ref glob validator, all byte strings of length L"})
@@ -187,6 +191,10 @@ func init() {
 		for _, a := range [][2]int64{{3, 0}, {4, 0}, {2, 1}, {2, 2}, {3, 3}, {2, 4}, {2, 5}} {
 			p.Quick = append(p.Quick, HRun{Entry: "HarnessC01Cron", Args: []int64{a[0], a[1]}, Bound: "schedule check on a cron specification of a concrete prefix (none, TZ=, CRON_TZ=, @, '@every ', 'TZ=U ') + arbitrary bytes; robfig/cron's parser interpreted from source", Require: []string{"checked"}})
 			p.Thorough = append(p.Thorough, HRun{Entry: "HarnessC01Cron", Args: []int64{a[0] + 1, a[1]}, Bound: "... one more arbitrary byte", Require: []string{"checked"}})
+		}
+		for _, a := range [][3]int64{{5, 0, 0}, {3, 1, 0}, {3, 2, 0}, {3, 3, 0}, {3, 4, 0}, {4, 0, 1}, {3, 1, 1}} {
+			p.Quick = append(p.Quick, HRun{Entry: "HarnessC01Uses", Args: a[:], Bound: "`uses:` of a step (third argument 1: of a job) = concrete prefix (none, ./, docker://, a/b, a@) + arbitrary bytes, through parser, action rule and workflow-call rule", Require: []string{"returned"}})
+			p.Thorough = append(p.Thorough, HRun{Entry: "HarnessC01Uses", Args: []int64{a[0] + 2, a[1], a[2]}, Bound: "... two more arbitrary bytes", Require: []string{"returned"}})
 		}
 		p.Quick = append(p.Quick, HRun{Entry: "HarnessC01NoProject", Bound: "LintFiles on two files outside any repository, one with a local reusable workflow call in 4 spellings", Require: []string{"returned"}})
 		p.Thorough = append(p.Thorough, HRun{Entry: "HarnessC01NoProject", Bound: "files outside any repository", Require: []string{"returned"}})
@@ -382,6 +390,11 @@ func init() {
 			p.Quick = append(p.Quick, r)
 			p.Thorough = append(p.Thorough, r)
 		}
+		{
+			r := HRun{Entry: "HarnessC16CalleeBroken", Bound: "a local reusable workflow / local action whose file go-yaml rejects with one or two type errors (3 files each; the library's message has one line per error): the caller's diagnostic is one line", Require: []string{"linted", "diagnostic"}}
+			p.Quick = append(p.Quick, r)
+			p.Thorough = append(p.Thorough, r)
+		}
 		props["C16"] = p
 	}
 
@@ -399,7 +412,7 @@ func init() {
 			{Entry: "HarnessC10Types", Args: []int64{1}, Bound: "on.<hook>.types: [T] for each of 32 webhook events, T 1 arbitrary byte", Require: []string{"reported"}},
 			{Entry: "HarnessC10Types", Args: []int64{3}, Bound: "... T 3 arbitrary bytes", Require: []string{"reported"}},
 		}
-		p.Quick = append(p.Quick, HRun{Entry: "HarnessC10MultiFile", Bound: "two repositories with their own configuration, three files (runner label two symbolic lower-case letters), LintFiles in 6 argument orders vs each file linted alone; configurations write-monitored", Require: []string{"linted"}})
+		p.Quick = append(p.Quick, HRun{Entry: "HarnessC10MultiFile", Bound: "two repositories with their own configuration, three files (runner label two symbolic lower-case letters), LintFiles in 8 argument orders x 3 goroutine orders vs each file linted alone; configurations write-monitored", Require: []string{"linted", "diagnosed"}})
 		p.Quick = append(p.Quick, HRun{Entry: "HarnessC10MatrixAlias", Bound: "matrices built from 7 expressions of shared types in 6 shapes (include elements before / after literal ones, whole matrix, whole include, row), every job order: no write to package-level tables, a later job unaffected", Require: []string{"linted"}})
 		p.Quick = append(p.Quick, HRun{Entry: "HarnessC10Races", Args: []int64{2, 3}, Bound: "LintFiles on 2 files x 3 run steps (shellcheck + pyflakes, one issue per script), 2 CPUs: every pair of accesses to one memory cell by two goroutines, one a write, without a common mutex, is ordered by the synchronisation in every schedule (solver query per pair on the schedule model)", Require: []string{"linted", "race-analysis-done"}})
 		for _, lens := range [][2]int64{{1, 1}, {1, 3}, {2, 2}, {2, 4}, {2, 5}, {3, 2}, {3, 3}, {3, 5}, {3, 6}, {4, 6}} {
@@ -412,14 +425,17 @@ func init() {
 			HRun{Entry: "HarnessC10Knows", Args: []int64{4, 7}, Bound: "roots of 4, paths of 7 bytes"},
 			HRun{Entry: "HarnessC10Knows", Args: []int64{5, 7}, Bound: "roots of 5, paths of 7 bytes"},
 		)
-		p.Quick = append(p.Quick, HRun{Entry: "HarnessC10FindProject", Bound: "81 layouts of .git / .github/workflows (absent, directory, file) in two nested directories: the file belongs to the nearest repository", Require: []string{"found"}})
-		p.Thorough = append(p.Thorough, HRun{Entry: "HarnessC10FindProject", Bound: "81 repository layouts", Require: []string{"found"}})
+		p.Quick = append(p.Quick, HRun{Entry: "HarnessC10FindProject", Bound: "81 layouts of .git / .github/workflows (absent, directory, file) in two nested directories x whether a file of the enclosing directory was resolved first through the same Projects: the file belongs to the nearest repository", Require: []string{"found"}})
+		p.Thorough = append(p.Thorough, HRun{Entry: "HarnessC10FindProject", Bound: "81 repository layouts x enclosing repository known or not", Require: []string{"found"}})
 		{
 			r := HRun{Entry: "HarnessC14Routes", Bound: "a callee's interface decoded from its file or written from its syntax tree (which one is used depends on the order of the files): same interface, and a caller gets the same diagnostics with either", Require: []string{"compared"}}
 			p.Quick = append(p.Quick, r)
 			p.Thorough = append(p.Thorough, r)
 		}
 		{
+			n := HRun{Entry: "HarnessC02Nested", Bound: "a repository vendored inside another one, each with its own configuration: [inner, outer] twice and [outer, inner] on one Linter, [outer, inner] on a fresh Linter", Require: []string{"compared"}}
+			p.Quick = append(p.Quick, n)
+			p.Thorough = append(p.Thorough, n)
 			r := HRun{Entry: "HarnessC10SameActionPath", Bound: "two repositories with a local action at the same relative path but different outputs, linted together in both orders and goroutine orders: each file is checked against its own repository's action", Require: []string{"linted"}}
 			p.Quick = append(p.Quick, r)
 			p.Thorough = append(p.Thorough, r)
@@ -567,7 +583,7 @@ func init() {
 			p.Thorough = append(p.Thorough, r)
 		}
 		{
-			r := HRun{Entry: "HarnessC02Nested", Bound: "a repository vendored inside another one, each with its own configuration: one Linter, [inner, outer] twice and [outer, inner] once", Require: []string{"compared"}}
+			r := HRun{Entry: "HarnessC02Nested", Bound: "a repository vendored inside another one, each with its own configuration: [inner, outer] twice and [outer, inner] on one Linter, [outer, inner] on a fresh Linter", Require: []string{"compared"}}
 			p.Quick = append(p.Quick, r)
 			p.Thorough = append(p.Thorough, r)
 		}
@@ -780,6 +796,9 @@ func init() {
 			HRun{Entry: "HarnessC20Schedule", Args: []int64{2, 2, 1, 1, 0}, Bound: "2 files x 2 steps, 1 CPU in the step-indexed encoding", Require: []string{"linted", "complete-schedule-exists"}},
 		)
 		for _, f := range []int64{0, 1} {
+			one := HRun{Entry: "HarnessC20Schedule", Args: []int64{1, 2, 2, 0, f}, Bound: "LintFiles on one path (the Linter.LintFile route) with 2 run steps, 2 CPUs; fail=1: shellcheck prints non-JSON while pyflakes is still running: in every schedule no tool goroutine is unfinished at the return", Require: []string{"linted", "complete-schedule-exists"}}
+			p.Quick = append(p.Quick, one)
+			p.Thorough = append(p.Thorough, one, HRun{Entry: "HarnessC20Schedule", Args: []int64{1, 4, 2, 0, f}, Bound: "Linter.LintFile route, 4 run steps, 2 CPUs", Require: []string{"linted", "complete-schedule-exists"}})
 			p.Quick = append(p.Quick, HRun{Entry: "HarnessC20Schedule", Args: []int64{0, 2, 2, 0, f}, Bound: "the Linter.Lint route (one file given as bytes) with 2 run steps, 2 CPUs; fail=1: shellcheck prints non-JSON while pyflakes is still running: every schedule", Require: []string{"linted", "complete-schedule-exists"}})
 			p.Thorough = append(p.Thorough, HRun{Entry: "HarnessC20Schedule", Args: []int64{0, 4, 2, 0, f}, Bound: "Linter.Lint route, 4 run steps, 2 CPUs", Require: []string{"linted", "complete-schedule-exists"}})
 		}
